@@ -53,6 +53,8 @@ def configs(tier, seed):
                     if tier == "quick" and algo in ("rs", "1+1") and sd != seeds[0]:
                         continue
                     out.append({"g": gi, "rep": rep, "algo": algo, "seed": sd})
+        for init in ("grow", "full", "pigrow", "ramped"):
+            out.append({"g": gi, "rep": "tree", "algo": "gp", "seed": seeds[0], "init": init})
     return out
 
 
@@ -90,7 +92,15 @@ def run_config(cfg, hash_order=None, want_trace=False):
         budget = EvaluationBudget(cfg.get("budget", 24))
         algo = cfg["algo"]
         try:
-            if algo == "gp":
+            if algo == "gp" and cfg.get("init"):
+                from geneticengine.representations.tree.operators import (
+                    FullInitializer, GrowInitializer, PositionIndependentGrowInitializer, RampedHalfAndHalfInitializer,
+                )
+
+                init = {"grow": lambda: GrowInitializer(), "full": lambda: FullInitializer(4),
+                        "pigrow": lambda: PositionIndependentGrowInitializer(4), "ramped": lambda: RampedHalfAndHalfInitializer(4)}[cfg["init"]]()
+                alg = GeneticProgramming(problem, budget, rep, random=r, population_size=6, population_initializer=init)
+            elif algo == "gp":
                 alg = GeneticProgramming(problem, budget, rep, random=r, population_size=6)
             elif algo == "gpx":
                 from geneticengine.algorithms.gp.operators.combinators import SequenceStep
